@@ -1,0 +1,47 @@
+"""Verification trace hooks (no-op unless SMPL_EXTRACT_VERIF=1 and SMPL_EXTRACT_VERIF_LOG names a file).
+
+One ndjson line per specification action, written at the call's return; a per-process sequence
+number orders the events.  Used only by the checks under /verif; nothing here changes behaviour."""
+import json
+import os
+
+ON = os.environ.get("SMPL_EXTRACT_VERIF") == "1"
+
+_seq = 0
+_ids = {}
+_keep = []
+_files = {}
+
+
+def ident(obj) -> int:
+    """small stable integer for an object (kept alive so ids are not reused)"""
+    k = id(obj)
+    if k not in _ids:
+        _ids[k] = len(_ids) + 1
+        _keep.append(obj)
+    return _ids[k]
+
+
+def reset():
+    global _seq
+    _seq = 0
+    _ids.clear()
+    _keep.clear()
+    for fh in _files.values():
+        fh.close()
+    _files.clear()
+
+
+def emit(event: str, **fields):
+    global _seq
+    path = os.environ.get("SMPL_EXTRACT_VERIF_LOG")
+    if not ON or not path:
+        return
+    fh = _files.get(path)
+    if fh is None:
+        fh = _files[path] = open(path, "a")
+    _seq += 1
+    fields["event"] = event
+    fields["seq"] = _seq
+    fh.write(json.dumps(fields) + "\n")
+    fh.flush()
